@@ -1,7 +1,7 @@
 (* Property C13 — wiring invariants hold for every size and seed.
    Random draws are universally quantified: "every seed" = every permutation / every in-range draw. *)
 From Coq Require Import String List Arith Bool Permutation.
-From TLX Require Import Model.Wiring Proofs.WiringFacts Proofs.SlicesFacts.
+From TLX Require Import Model.Wiring Proofs.WiringFacts Proofs.SlicesFacts Proofs.UniqueCover.
 Import ListNotations.
 
 (* dense 'unique': no neuron wired to one input twice (a < b), all wires exist, no two neurons share a pair *)
@@ -77,6 +77,19 @@ Example C13_example :
   /\ conv_unique_pairs 3 4 [0; 1; 2] = None.
 Proof. repeat split; vm_compute; reflexivity. Qed.
 
+(* which inputs the dense 'unique' wiring uses, exactly (the property promises coverage for 'random' only; the source explains the lower
+   bound of 'unique' by "otherwise not all inputs could be used"): every input except the last one when in_dim is odd and
+   out_dim <= in_dim - 2 — for every accepted size, every permutation, every input *)
+Theorem C13_unique_cover : forall n m perm ps i, 2 <= n -> Permutation perm (seq 0 m) ->
+  unique_connections n m perm = Some ps -> i < n ->
+  (uses ps i <-> (n mod 2 = 0 \/ i < n - 1 \/ n - 1 <= m)).
+Proof. exact unique_connections_cover. Qed.
+
+(* read as a guarantee "all inputs are used", the explanation is false: LogicDense(5, 3, 'unique') never reads input 4 *)
+Theorem C13_unique_cover_all_refuted : exists n m perm ps, n <= 2 * m /\ m <= n * (n - 1) / 2 /\ Permutation perm (seq 0 m) /\
+  unique_connections n m perm = Some ps /\ ~ uses ps (n - 1).
+Proof. exact unique_cover_all_refuted. Qed.
+
 Eval compute in "PA:C13_unique"%string. Print Assumptions C13_unique.
 Eval compute in "PA:C13_unique_rejects"%string. Print Assumptions C13_unique_rejects.
 Eval compute in "PA:C13_unique_slices"%string. Print Assumptions C13_unique_slices.
@@ -88,3 +101,5 @@ Eval compute in "PA:C13_conv_unique_rejects"%string. Print Assumptions C13_conv_
 Eval compute in "PA:C13_positions_distinct"%string. Print Assumptions C13_positions_distinct.
 Eval compute in "PA:C13_tree"%string. Print Assumptions C13_tree.
 Eval compute in "PA:C13_unrank_arith"%string. Print Assumptions C13_unrank_arith.
+Eval compute in "PA:C13_unique_cover"%string. Print Assumptions C13_unique_cover.
+Eval compute in "PA:C13_unique_cover_all_refuted"%string. Print Assumptions C13_unique_cover_all_refuted.
